@@ -468,7 +468,8 @@ pub fn dna_backgrounds() -> Vec<BgSpec> {
 }
 
 pub fn bases() -> Vec<f32> {
-    vec![2.0, 10.0, std::f32::consts::E, 3.0]
+    // 1.5, 2.5, 9.5: non-integral bases next to the two special-cased ones (log2 / log10 fast paths)
+    vec![2.0, 10.0, std::f32::consts::E, 3.0, 1.5, 2.5, 9.5]
 }
 
 /// Protein count rows (21 columns, wildcard X last).
